@@ -1,4 +1,72 @@
+"""C01: (a) strata traces validated against exact matrix products (numeric.run); (b) exhaustive exact lattices
+ManifLattice.tla (integer coefficient formulas refine the matrix model in every reachable state) with every
+exported state replayed on the real library and compared EXACTLY by LatticeTrace.tla."""
+import os, json
+import vlib
 from . import numeric
+
+KIND_TYPE = {"SE2": "manif::SE2<%s>", "SO3": "manif::SO3<%s>", "SE3": "manif::SE3<%s>", "SE_2_3": "manif::SE_2_3<%s>", "SGal3": "manif::SGal3<%s>"}
+def flat(e, planar):
+    q = list(e["q"]) + ([0, 0] if planar else [])
+    pad = lambda v: list(v) + [0] * (3 - len(v))
+    return q + pad(e["t"]) + pad(e["v"]) + [e["s"]]
+
+def lattice(rep, tier, seed):
+    kinds = ["SE2", "SO3", "SE3"] if tier == "quick" else ["SE2", "SO3", "SE3", "SE_2_3", "SGal3"]
+    wd = os.path.join(vlib.CACHE, "work", "C01", "lattice"); os.makedirs(wd, exist_ok=True)
+    jobs = []
+    for k in kinds:
+        for sc, st in (("d", "double"), ("f", "float")):
+            jobs.append(dict(tag="rec_lattice_%s_%s" % (k, sc), src="rec_lattice.cpp", defs=["REC_GROUP=" + KIND_TYPE[k] % st, 'REC_KIND="%s"' % k]))
+    res = vlib.build_many(jobs)
+    bad = {t: l for t, (p, l) in res.items() if p is None}
+    if bad: raise vlib.BuildError(bad)
+    import concurrent.futures as cf
+    def model(k):
+        return k, vlib.tlc("ManifLattice", cfg="ManifLattice_%s.cfg" % k, overrides=False, workers=4, timeout=3000, extra=["-noGenerateSpecTE"])
+    with cf.ThreadPoolExecutor(len(kinds)) as ex: outs = list(ex.map(model, kinds))
+    all_results = []
+    for k, (rc, out) in outs:
+        if rc != 0 or "No error has been found" not in out: raise vlib.ModelError("ManifLattice %s failed:\n%s" % (k, out[-2500:]))
+        st = vlib.tlc_stats(out); rep.states += st[0]; rep.transitions += st[1]
+        objs = vlib.printed_json(out)
+        gens = [o for o in objs if isinstance(o, dict) and "gens" in o][0]
+        elems = [o for o in objs if isinstance(o, dict) and "q" in o]
+        elems.sort(key=lambda e: json.dumps(e, sort_keys=True))
+        rep.extra["lattice_states_" + k] = len(elems)
+        planar = k == "SE2"
+        pairs = [(e, g) for e in elems for g in gens["gens"]]
+        if tier == "quick": pairs = pairs[seed % 9::9]
+        pts = gens["points"]
+        lines = ["X %s G %s P %d %s" % (" ".join(map(str, flat(e, planar))), " ".join(map(str, flat(g, planar))), len(pts), " ".join(str(c) for p in pts for c in p)) for e, g in pairs]
+        evs = []
+        for sc in ("d", "f"):
+            pp = os.path.join(wd, "plan_%s_%s.txt" % (k, sc)); open(pp, "w").write("\n".join(lines) + "\n")
+            op = os.path.join(wd, "trace_%s_%s.ndjson" % (k, sc))
+            r = vlib.sh(["timeout", "900", res["rec_lattice_%s_%s" % (k, sc)][0], pp, op])
+            ls = open(op).read().splitlines() if os.path.exists(op) else []
+            if r.returncode != 0 or len(ls) != len(lines): raise vlib.ModelError("rec_lattice %s %s failed: %s" % (k, sc, r.stdout[-400:]))
+            evs += ls; rep.traces += 1
+        # validate with the kind-specific configuration (constants Kind / Bound)
+        n = min(vlib.NCPU, max(1, len(evs) // 60))
+        shards = [evs[i::n] for i in range(n)]
+        def val(i):
+            p = os.path.join(wd, "shard_%s_%d.ndjson" % (k, i)); open(p, "w").write("\n".join(shards[i]) + "\n")
+            rc2, out2 = vlib.tlc("LatticeTrace", cfg="LatticeTrace_%s.cfg" % k, env={"TRACE": p}, timeout=3000, extra=["-noGenerateSpecTE"])
+            vs = [v for v in vlib.printed_json(out2) if isinstance(v, list) and v and v[0] == "V"]
+            if rc2 != 0 or len(vs) != len(shards[i]): raise vlib.ModelError("LatticeTrace %s shard %d not accepted (%d/%d):\n%s" % (k, i, len(vs), len(shards[i]), out2[-2500:]))
+            return [dict(ev=shards[i][v[1] - 1], theta=v[2], lin=v[3], gap=v[4], items=[(a, b) for a, b in v[5]]) for v in vs], vlib.tlc_stats(out2)
+        with cf.ThreadPoolExecutor(n) as ex:
+            for r2, st2 in ex.map(val, range(n)):
+                all_results += r2; rep.states += st2[0]; rep.transitions += st2[1]
+    return all_results
+
 def run(tier, seed):
-    return numeric.run("C01", tier, seed, lambda e, i: not i.startswith("J"),
-        "cells = Strata.tla PlanOf(C01): {compose,inverse,act,transform} x group x rotation cell x linear cell x hemisphere (second operand cells cycled) + identity; distinct = (event, group, scalar, stratum or theta/lin log2 bucket measured by the trace spec)")
+    rule = ("(a) cells = Strata.tla PlanOf(C01): {compose,inverse,act,transform} x group x rotation cell x linear cell x hemisphere (second operand cells cycled) + identity, validated against exact matrix products; "
+            "(b) every reachable state of ManifLattice.tla (24 Hurwitz quaternions / 4 quarter turns x bounded integer translations, velocities, time) x every generator replayed bit-exactly; "
+            "distinct = (event, group, scalar, stratum or theta/lin log2 bucket measured by the trace spec)")
+    holder = {}
+    def extra(rep):
+        holder["lat"] = lattice(rep, tier, seed)
+        return holder["lat"]
+    return numeric.run("C01", tier, seed, lambda e, i: not i.startswith("J"), rule, extra_results=extra)
